@@ -27,6 +27,11 @@ def gen_history(streams, tier, profile):
     prng = streams.get("program")
     hrng = streams.get("history")
     feat = profile["feat"](cfg, profile.get("avoid", ()))
+    if tier == "thorough" and cfg.random() < 0.5:
+        # deeper bounds in the thorough tier: larger call graphs, more variables, more modules
+        feat["nfuncs"] = cfg.randint(6, 11)
+        feat["nvars"] = cfg.randint(2, 8)
+        feat["nmods"] = cfg.choice([1, 2, 3, 4])
     prog = gen.gen_program(prng, feat)
     store = gen_store(cfg, profile.get("stores", ("local", "local", "local+cache", "memory", "noop")))
     lo, hi = profile.get("n", (3, 10))
